@@ -26,7 +26,7 @@ ASSUMPTIONS = ["pairwise model: default policies (deep hashes, arrays concatenat
 def _left(a, b, c):
     return cmap(("a", cmap(("p", a), ("q", 1))), ("b", cmap(("p", b))), ("w", cseq(cmap(("n", 1), ("p", a)), cmap(("n", 2), ("p", c)))),
                 ("l", cseq(a, b)), ("k", 0), ("t", cmap(("x", cmap(("p", a))), ("y", cmap(("p", c))))),
-                ("u", cseq(cseq(a), cseq(c))))
+                ("u", cseq(cseq(a), cseq(c))), ("e", cmap()))
 
 
 # name -> (mergeat, rhs kind, targets(plain_left, a, b, c) -> list of trails or None for "must be refused")
@@ -104,7 +104,7 @@ def mergeat_existing(name: str, a: int, b: int, c: int, x: int, y: int) -> bool:
 def mergeat_missing(where: int, kind: int, x: int, y: int, a: int, b: int, c: int) -> bool:
     """A missing target path is created to hold the right-hand document; nothing else changes."""
     x, y = realize(x), realize(y)
-    mergeat = ["/z", "/a/zz", "/new/deep"][where]
+    mergeat = ["/z", "/a/zz", "/new/deep", "/e/child", "/e/child/deeper"][where]
     lhs = _left(a, b, c)
     rhs = [cmap(("q", x), ("r", y)), cseq(x, y)][kind]
     pl, pr = to_plain(lhs), to_plain(rhs)
@@ -116,8 +116,12 @@ def mergeat_missing(where: int, kind: int, x: int, y: int, a: int, b: int, c: in
         want["z"] = pr
     elif where == 1:
         want["a"]["zz"] = pr
-    else:
+    elif where == 2:
         want["new"] = {"deep": pr}
+    elif where == 3:
+        want["e"] = {"child": pr}          # below an existing EMPTY hash
+    else:
+        want["e"] = {"child": {"deeper": pr}}
     got = to_plain(merger.data)
     note(merged=got, expected=want)
     return got == want
@@ -131,14 +135,14 @@ def shards(tier, seed):
                          ["-9 <= a <= 9 and -9 <= b <= 9 and -9 <= c <= 9", "-9 <= x <= 9 and -9 <= y <= 9"],
                          family="existing/%s" % name, budget=900,
                          desc="mergeat %s with a right-hand %s" % CASES[name], bounds={"leaves": "[-9,9]"}))
-    for where in range(3):
+    for where in range(5):
         for kind in range(2):
             out.append(shard(PID, "missing/w%d_k%d" % (where, kind), "harness.c11",
                              "mergeat_missing(%d, %d, x, y, a, b, c)" % (where, kind),
                              [("x", "int"), ("y", "int"), ("a", "int"), ("b", "int"), ("c", "int")],
                              ["0 <= x <= 1 and 0 <= y <= 1", "-9 <= a <= 9 and -9 <= b <= 9 and -9 <= c <= 9"],
                              family="missing", budget=900,
-                             desc="mergeat %s (missing, created) with a right-hand %s" % (["/z", "/a/zz", "/new/deep"][where],
+                             desc="mergeat %s (missing, created) with a right-hand %s" % (["/z", "/a/zz", "/new/deep", "/e/child", "/e/child/deeper"][where],
                                                                                          ["hash", "array"][kind]),
                              bounds={"x,y": "[0,1] enumerated", "a,b,c": "[-9,9]"}))
     return out
